@@ -10,6 +10,8 @@ from vlib import hexf, close
 HERE = os.path.dirname(os.path.abspath(__file__))
 sys.path.insert(0, HERE)
 import e2e  # noqa: E402  (props/C08/e2e.py: end-to-end search)
+import rzmap as rzm  # noqa: E402  (props/C08/rzmap.py: RZMapField differential)
+import applier as apl  # noqa: E402  (props/C08/applier.py: PropagationApplier differential)
 import integrators as stp  # noqa: E402  (props/C08/integrators.py: RK4/DormandPrince/MagFieldEquation, translator + differential)
 
 PRE = ("From Coq Require Import ZArith List Floats.\n"
@@ -527,6 +529,8 @@ def run(ctx):
     ctx.trusted += [
         "hand-written models coq/C08/{PropagatorModel,DriverModel,Helix}.v tied by scripted-oracle replay against the real templates (props/C08/run.py, harness/scripted.cc) and by the ZHelixStepper differential",
         "integrator models: coq/Generated/C08_steppers.v regenerated from RungeKuttaStepper.hh/DormandPrinceStepper.hh by translators/steppers.py on every run (the translator is trusted only as far as the differential harness/steppers.cc against the real templates checks its output); hand-written coq/C08/{StepperBase,Steppers}.v (OdeState axpy, MagFieldEquation coefficient/right-hand side, field functors)",
+        "hand-written model coq/C08/ApplierModel.v (PropagationApplier + SimTrackView::update_looping/is_looping) tied by the differential harness/applier.cc: the real detail::PropagationApplier<scripted propagator> on a track slot of a real CoreState (problem definitions of props/C01/harness/problems.hh + an unstable particle and per-particle looping thresholds)",
+        "hand-written model coq/C08/RZMap.v (RZMapField::operator(), UniformGrid::find/operator[], find_interp, valid/id) tied by the differential on the real RZMapFieldParams of cms-tiny.field.json (harness/e2e.cc lines G/R: grids and node values are read back from the params)",
         "histories of calls on one propagator: the model re-reads the start position of call k+1 from the implementation's geometry after call k (C08_propagator_state_synced)",
         "float instance of Num (Base/NumF.v, Base/FloatFun.v): own exp/log/sin/cos; compared with libm under rtol 1e-9",
         "gap R vs binary64 rounding (DESIGN.md 3.1)",
@@ -541,7 +545,7 @@ def run(ctx):
     # a changed tableau constant or axpy sequence changes the model the theorems are about
     tie_err = stp.regenerate(ctx)
     proofs_ok = ctx.coq_prove("Properties_C08.v")
-    ok, log = ctx.coq_build(["C08/Run.vo", "C08/RunSteppers.vo"])
+    ok, log = ctx.coq_build(["C08/Run.vo", "C08/RunSteppers.vo", "C08/RunApplier.vo", "C08/RunRZMap.vo"])
     if not ok:
         ctx.violation("model-broken", "the executable model no longer compiles",
                       getattr(ctx, "broken_proof", {"log_tail": log[-2000:]}), no_input=True)
@@ -554,6 +558,7 @@ def run(ctx):
     def build_e2e():
         try:
             ctx.build_libs(["celeritas", "orange"])
+            exe["applier"] = apl.build(ctx)
             exe["e2e"] = ctx.compile_harness([os.path.join(HERE, "harness", "e2e.cc")], "e2e",
                                              libs=["celeritas", "orange", "geocel", "corecel"])
         except Exception as ex:  # re-raised in the main thread
@@ -728,6 +733,9 @@ def run(ctx):
         if ndis > 6:
             break
 
+    # ---- PropagationApplier (how the propagation result is applied to the track) ----
+    found_input |= apl.run(ctx, exe["applier"])
+
     # ---- integrators: RK4 / Dormand-Prince / MagFieldEquation ---------------
     found_input |= stp.run(ctx, exe["steppers"])
     if tie_err:
@@ -736,6 +744,9 @@ def run(ctx):
 
     # ---- ZHelix differential + end-to-end search ---------------------------
     found_input |= e2e.finish(ctx, e2e_job, PRE)
+
+    # ---- RZMapField interpolation on the real field map ------------------------
+    found_input |= rzm.run(ctx, exe["e2e"], e2e_job["geodir"], e2e_job["fmap"])
 
     if not proofs_ok and not found_input:
         ctx.violation("proof-broken", "Properties_C08.v no longer checks", ctx.broken_proof, no_input=True)
@@ -747,6 +758,9 @@ def run(ctx):
         "(b) scripted driver = options, start "
         "state, 1-3 successive advance requests, 80 relative stepper answers; (b') RK4/Dormand-Prince/MagFieldEquation "
         "on random states, uniform and linear fields, charges, step/R 1e-6..3; (c) ZHelixStepper vs model; "
-        "(d) end-to-end propagations on ORANGE geometries. non-trivial = the script was long enough / the run "
+        "(d) end-to-end propagations on ORANGE geometries (every other case: one propagator object for all calls; "
+        "every 4th of those also re-run with a fresh propagator per call and compared); (e) PropagationApplier: "
+        "sequences of 1-14 applications on one track slot, stable/unstable particles, energies at the looping "
+        "threshold +-1e-9; (f) RZMapField: nodes, grid lines +-1 ulp, axis, map edges, outside, random points. non-trivial = the script was long enough / the run "
         "returned a result; distinct by (options, step, start state)")
     ctx.coverage["traces_validated_against_impl"] = len(pcases) + len(live) + len(mcases)
